@@ -133,7 +133,11 @@ LenCases == {[t |-> t, what |-> "len", i |-> n, key |-> "", c |-> "", kind |-> "
                t \in TypeNames, n \in 1..8}
 LenCasesOk == {x \in LenCases : x.i < Types[x.t].minlen \/ x.i > Len(Types[x.t].pos) + 1}
 BaseCases == {[t |-> t, what |-> "base", i |-> 0, key |-> "", c |-> "", kind |-> "", verdict |-> "accept"] : t \in TypeNames}
-Cases == BaseCases \cup PosCasesOk \cup KeyCases \cup LenCasesOk
+\* role features announced in HELLO / WELCOME details.roles.<role>.features are all booleans; the driver expands each of
+\* these cases over every (role, feature) pair the library knows for that message type
+FeatureCases == {[t |-> t, what |-> "feature", i |-> 0, key |-> "", c |-> c, kind |-> "bool", verdict |-> KeyVerdict("bool", c)] :
+                   t \in {"hello", "welcome"}, c \in Classes}
+Cases == BaseCases \cup PosCasesOk \cup KeyCases \cup LenCasesOk \cup FeatureCases
 
 TableSane ==
   /\ Cardinality(TypeNames) = 25 /\ Cardinality(Codes) = 25
